@@ -71,13 +71,14 @@ def config_time(quick):
 
 def config_reentry(quick):
     """(E) re-entrancy: a value that logs through another (or the same) logger from inside its String method while
-    the outer record is being formatted; a child created from inside an Each walk."""
+    the outer record is being formatted; a child created from inside an Each walk.  Long-running processes: a logger
+    given 1100 anonymous children in one go (all of them visited by Each), 70 000 loggers derived elsewhere."""
     opt = lambda k, a, b=0: dict(k=k, a=a, b=b)
     return dict(
         max_loggers=2 if quick else 3, init_level=5, names=["a"], bool_lists=BOOL_LISTS, layouts=["", "15:04:05"], opt_lists=[[], [opt("JSONMode", 1)]],
         setter_args={"JSONMode": [(1, 0)], "ColorMode": [(3, 0)], "TimeFormat": [(2, 0)]} if quick else
         {"JSONMode": [(1, 0)], "TimeFormat": [(2, 0)], "UTCMode": [(1, 0)]},
-        acts=["Set", "New", "LogNest", "EachNew"], probe_sevs=[4], max_list=1,
+        acts=["Set", "New", "LogNest", "EachNew", "BulkKids"], probe_sevs=[4], max_list=1, max_bulk=1,
     )
 
 
@@ -108,7 +109,7 @@ def rand_config():
         max_loggers=3, init_level=5, names=["a", "b", "c"], bool_lists=BOOL_LISTS, layouts=["", "15:04:05"],
         opt_lists=[[], [opt("Level", 2)], [opt("JSONMode", 1), opt("Attrs", 2, 7)], [opt("Writer", 1)], [opt("Level", 0)],
                    [opt("ColorMode", 3), opt("Level", 5), opt("AddWriter", 2)], [opt("ErrorWriter", 3), opt("UTCMode", 1)]],
-        setter_args=sa, acts=["Set", "With", "New", "NewDetached", "PkgSetLevel", "SetDefault", "Flags", "PkgLevel", "PkgSkip", "LogNest", "EachNew"], probe_sevs=[4, 2],
+        setter_args=sa, acts=["Set", "With", "New", "NewDetached", "PkgSetLevel", "SetDefault", "Flags", "PkgLevel", "PkgSkip", "LogNest", "EachNew", "BulkKids", "Burn"], probe_sevs=[4, 2],
         flag_sets=FLAG_SETS,
     )
 
